@@ -134,6 +134,66 @@ def _rename_op_closure(no_overwrite_check=True):
             "        return self._node.modify(_rename)\n\n")
 
 
+# ---- C20.3: move_child_to re-written with inlineCallbacks (`x = yield d` is the sequencing form of addCallback)
+MOVE_BODY_OLD = """        if self.is_readonly() or new_parent.is_readonly():
+            return defer.fail(NotWriteableError())
+
+        current_child_name = normalize(current_child_namex)
+        if new_child_namex is None:
+            new_child_name = current_child_name
+        else:
+            new_child_name = normalize(new_child_namex)
+
+        from_uri = self.get_write_uri()
+        if new_parent.get_write_uri() == from_uri and new_child_name == current_child_name:
+            # needed for correctness, otherwise we would delete the child
+            return defer.succeed("redundant rename/relink")
+
+        d = self.get_child_and_metadata(current_child_name)
+        def _got_child(child_and_metadata):
+            (child, metadata) = child_and_metadata
+            return new_parent.set_node(new_child_name, child, metadata,
+                                       overwrite=overwrite)
+        d.addCallback(_got_child)
+        d.addCallback(lambda child: self.delete(current_child_name))
+        return d
+"""
+
+
+def _inline_move(guard="normalize(new_child_namex) == normalize(current_child_namex)",
+                 prologue=None, steps=None, new="new_child_namex", cur="current_child_namex"):
+    """(decorator edit, body edit) turning move_child_to into an inlineCallbacks generator."""
+    if prologue is None:
+        prologue = ("        if new_child_namex is None:\n"
+                    "            new_child_namex = current_child_namex\n")
+    if steps is None:
+        steps = ("        (child, metadata) = yield self.get_child_and_metadata(%(cur)s)\n"
+                 "        yield new_parent.set_node(%(new)s, child, metadata,\n"
+                 "                                  overwrite=overwrite)\n"
+                 "        old_child = yield self.delete(%(cur)s)\n"
+                 "        return old_child\n")
+    steps = steps % {"new": new, "cur": cur}
+    body = ("        if self.is_readonly() or new_parent.is_readonly():\n"
+            "            raise NotWriteableError()\n\n" + prologue + "\n"
+            "        if (new_parent.get_write_uri() == self.get_write_uri()" +
+            ("\n            and " + guard if guard else "") + "):\n"
+            "            # needed for correctness, otherwise we would delete the child\n"
+            "            return \"redundant rename/relink\"\n\n" + steps)
+    return dict(old=MOVE_BODY_OLD, new=body, edits=[(F, MOVE_ANCHOR, "    @defer.inlineCallbacks\n" + MOVE_ANCHOR)])
+
+
+def IM(mid, expect, **kw):
+    e = _inline_move(**kw)
+    return M(mid, F, e["old"], e["new"], expect, edits=e["edits"])
+
+
+_NORM_PROLOGUE = ("        current_child_name = normalize(current_child_namex)\n"
+                  "        if new_child_namex is None:\n"
+                  "            new_child_name = current_child_name\n"
+                  "        else:\n"
+                  "            new_child_name = normalize(new_child_namex)\n")
+
+
 MUTANTS = [
     # ---- C20.10 every modifier that can bind a name honours the overwrite mode (modifiers are discovered, not listed)
     # the seeded change: same-directory fast path through a new modifier without the ONLY_FILES / directory check
@@ -344,6 +404,102 @@ MUTANTS = [
       "        if new_child_namex is None:\n            new_child_name = current_child_name\n        else:\n"
       "            new_child_name = normalize(new_child_namex)\n",
       "        new_child_name = current_child_name if new_child_namex is None else normalize(new_child_namex)\n", None),
+    # C20.3 in the inlineCallbacks shape (seeded C20-I: the refactor kept the guard but compares the raw names)
+    IM("imove-seeded-raw-guard", "C20.3", guard="new_child_namex == current_child_namex"),
+    IM("imove-guard-one-side-raw", "C20.3", guard="normalize(new_child_namex) == current_child_namex"),
+    IM("benign-imove-faithful", None),
+    IM("benign-imove-normalised-locals", None, prologue=_NORM_PROLOGUE, guard="new_child_name == current_child_name",
+       new="new_child_name", cur="current_child_name"),
+    IM("benign-imove-guard-on-locals-raw-args", None,
+       prologue="        if new_child_namex is None:\n            new_child_namex = current_child_namex\n"
+                "        old_name = normalize(current_child_namex)\n        new_name = normalize(new_child_namex)\n",
+       guard="new_name == old_name"),
+    IM("imove-delete-before-set", "C20.3",
+       steps="        (child, metadata) = yield self.get_child_and_metadata(%(cur)s)\n"
+             "        old_child = yield self.delete(%(cur)s)\n"
+             "        yield new_parent.set_node(%(new)s, child, metadata,\n"
+             "                                  overwrite=overwrite)\n"
+             "        return old_child\n"),
+    IM("imove-set-node-not-waited-for", "C20.3",
+       steps="        (child, metadata) = yield self.get_child_and_metadata(%(cur)s)\n"
+             "        new_parent.set_node(%(new)s, child, metadata,\n"
+             "                            overwrite=overwrite)\n"
+             "        old_child = yield self.delete(%(cur)s)\n"
+             "        return old_child\n"),
+    IM("imove-set-node-failure-swallowed", "C20.3",
+       steps="        (child, metadata) = yield self.get_child_and_metadata(%(cur)s)\n"
+             "        try:\n"
+             "            yield new_parent.set_node(%(new)s, child, metadata,\n"
+             "                                      overwrite=overwrite)\n"
+             "        except ExistingChildError:\n"
+             "            pass\n"
+             "        old_child = yield self.delete(%(cur)s)\n"
+             "        return old_child\n"),
+    IM("imove-delete-in-finally", "C20.3",
+       steps="        (child, metadata) = yield self.get_child_and_metadata(%(cur)s)\n"
+             "        try:\n"
+             "            yield new_parent.set_node(%(new)s, child, metadata,\n"
+             "                                      overwrite=overwrite)\n"
+             "        finally:\n"
+             "            old_child = yield self.delete(%(cur)s)\n"
+             "        return old_child\n"),
+    IM("imove-overwrite-not-forwarded", ["C20.3", "C20.6"],
+       steps="        (child, metadata) = yield self.get_child_and_metadata(%(cur)s)\n"
+             "        yield new_parent.set_node(%(new)s, child, metadata)\n"
+             "        old_child = yield self.delete(%(cur)s)\n"
+             "        return old_child\n"),
+    IM("imove-shortcut-same-dir-only", "C20.3", guard=None),
+    IM("imove-shortcut-guard-inverted", "C20.3", guard="normalize(new_child_namex) != normalize(current_child_namex)"),
+    IM("benign-imove-guard-negated-eq", None, guard="not normalize(new_child_namex) != normalize(current_child_namex)"),
+    IM("imove-delete-new-name", "C20.3",
+       steps="        (child, metadata) = yield self.get_child_and_metadata(%(cur)s)\n"
+             "        yield new_parent.set_node(%(new)s, child, metadata,\n"
+             "                                  overwrite=overwrite)\n"
+             "        old_child = yield self.delete(%(new)s)\n"
+             "        return old_child\n"),
+    IM("benign-imove-deferred-in-local", None,
+       steps="        pair = yield self.get_child_and_metadata(%(cur)s)\n"
+             "        (child, metadata) = pair\n"
+             "        linked = new_parent.set_node(%(new)s, child, metadata,\n"
+             "                                     overwrite=overwrite)\n"
+             "        yield linked\n"
+             "        old_child = yield self.delete(%(cur)s)\n"
+             "        defer.returnValue(old_child)\n"),
+    M("benign-imove-flag-locals-returnvalue", F, MOVE_BODY_OLD,
+      "        if self.is_readonly() or new_parent.is_readonly():\n"
+      "            raise NotWriteableError()\n"
+      "        old_name = normalize(current_child_namex)\n"
+      "        new_name = old_name if new_child_namex is None else normalize(new_child_namex)\n"
+      "        same_dir = new_parent.get_write_uri() == self.get_write_uri()\n"
+      "        same_name = new_name == old_name\n"
+      "        if same_dir and same_name:\n"
+      "            defer.returnValue(\"redundant rename/relink\")\n"
+      "        child, metadata = yield self.get_child_and_metadata(old_name)\n"
+      "        yield new_parent.set_node(new_name, child, metadata, overwrite=overwrite)\n"
+      "        res = yield self.delete(old_name)\n"
+      "        defer.returnValue(res)\n", None,
+      edits=[(F, MOVE_ANCHOR, "    @defer.inlineCallbacks\n" + MOVE_ANCHOR)]),
+    M("imove-flag-locals-raw-names", F, MOVE_BODY_OLD,
+      "        if self.is_readonly() or new_parent.is_readonly():\n"
+      "            raise NotWriteableError()\n"
+      "        old_name = current_child_namex\n"
+      "        new_name = old_name if new_child_namex is None else new_child_namex\n"
+      "        same_dir = new_parent.get_write_uri() == self.get_write_uri()\n"
+      "        same_name = new_name == old_name\n"
+      "        if same_dir and same_name:\n"
+      "            defer.returnValue(\"redundant rename/relink\")\n"
+      "        child, metadata = yield self.get_child_and_metadata(old_name)\n"
+      "        yield new_parent.set_node(new_name, child, metadata, overwrite=overwrite)\n"
+      "        res = yield self.delete(old_name)\n"
+      "        defer.returnValue(res)\n", "C20.3",
+      edits=[(F, MOVE_ANCHOR, "    @defer.inlineCallbacks\n" + MOVE_ANCHOR)]),
+    # the same slip in the callback-chain shape: the guard is evaluated on the raw names
+    M("move-guard-raw-names", F, "from_uri and new_child_name == current_child_name:",
+      "from_uri and new_child_namex == current_child_namex:", "C20.3"),
+    M("move-new-name-not-normalised-for-guard", F, "            new_child_name = normalize(new_child_namex)\n",
+      "            new_child_name = new_child_namex\n", "C20.3"),
+    M("benign-move-guard-normalises-in-place", F, "from_uri and new_child_name == current_child_name:",
+      "from_uri and normalize(new_child_name) == normalize(current_child_namex):", None),
     # C20.4
     M("deleter-present-noop", F, "        if self.name not in children:", "        if self.name in children:", "C20.4"),
     M("deleter-missing-succeeds", F,
